@@ -54,7 +54,11 @@ impl TrackerClient {
             ("numwant", "20".to_string()),
         ];
 
+        #[cfg(not(feature = "verif"))]
         let client = reqwest::Client::new();
+        // HTTP seam: the harness sees the request reqwest built and may answer it.
+        #[cfg(feature = "verif")]
+        let client = crate::verif::http(crate::verif::cached_client());
         let url = &Self::create_url(&self.metainfo);
 
         loop {
@@ -95,6 +99,11 @@ impl TrackerClient {
             .send(cmd)
             .await
             .expect("Can't communicate to manager");
+    }
+
+    #[cfg(feature = "verif")]
+    pub fn verif_create_url(metainfo: &Metainfo) -> String {
+        Self::create_url(metainfo)
     }
 
     fn create_url(metainfo: &Metainfo) -> String {
